@@ -34,6 +34,15 @@ UKEYS = ['angular_position_unit', 'angular_speed_unit', 'angular_acceleration_un
 UKIND = ['AngularPosition', 'AngularSpeed', 'AngularAcceleration', 'Torque', 'Torque', 'Torque', 'Force', 'Stress', 'Current']
 
 
+def use_before_rerun(pt, els):
+    try:
+        pt.snapshot(target_time=pt.time[len(pt.time) // 2], print_data=False)
+        with tempfile.TemporaryDirectory() as d_:
+            pt.export_time_variables(folder_path=os.path.join(d_, 'look'))
+    except Exception:  # noqa
+        pass
+
+
 def simulate(rng):
     """a small simulated powertrain with optional data; returns (pt, els) or None"""
     if rng.random() < 0.4:          # a solver-family scenario (self-locking trains record speeds in mixed units: the user's unit, then rad/s)
@@ -51,12 +60,22 @@ def simulate(rng):
         try:
             pt, els = scen.build(fam_keys.fix_opt(sc))
             Solver(pt).run(time_discretization=scen.mkq(sc['ops'][0][1]), simulation_time=scen.mkq(sc['ops'][0][2]))
-            if rng.random() < 0.3:
+            r_ = rng.random()
+            if r_ < 0.3:
                 u2 = rng.choice(S.units('Time'))
                 dt2 = 2e-3 / S.ffactor('Time', u2)
                 n2 = rng.randint(2, 4)
                 Solver(pt).run(time_discretization=U.TimeInterval(dt2, u2), simulation_time=U.TimeInterval(dt2 * n2, u2))
                 sc['ops'] += [['newsolver'], ['run', ['TimeInterval', dt2, u2], ['TimeInterval', dt2 * n2, u2], None, None]]
+            elif r_ < 0.55:
+                # the powertrain has been looked at (snapshot, export) before it is reset and simulated again over ANOTHER grid with the
+                # same number of instants: what a report kept from the first look must not leak into the second
+                use_before_rerun(pt, els)
+                u2 = rng.choice(S.units('Time'))
+                dt2 = rng.choice([0.5e-3, 2e-3, 3e-3]) / S.ffactor('Time', u2)
+                pt.reset()
+                Solver(pt).run(time_discretization=U.TimeInterval(dt2, u2), simulation_time=U.TimeInterval(dt2 * n, u2))
+                sc['ops'] += [['look'], ['reset'], ['newsolver'], ['run', ['TimeInterval', dt2, u2], ['TimeInterval', dt2 * n, u2], None, None]]
             return pt, els, sc
         except Exception:  # noqa
             continue
@@ -385,6 +404,10 @@ def resimulate(sc):
     for op in sc['ops']:
         if op[0] == 'newsolver':
             solver = Solver(pt)
+        elif op[0] == 'look':
+            use_before_rerun(pt, els)
+        elif op[0] == 'reset':
+            pt.reset()
         elif op[0] == 'run':
             solver.run(time_discretization=scen.mkq(op[1]), simulation_time=scen.mkq(op[2]))
     return pt, els
